@@ -140,6 +140,16 @@ let judge _name ins outs =
       if List.exists (fun t -> (is_prefix (Printf.sprintf "p%ch" dc) t || is_prefix (Printf.sprintf "s%ch" dc) t)
                                && not (is_prefix "ok" (tail_from t 5))) all_ev
       then Some ("headers_changed", "a forwarded HEADERS differs from the one received") else
+      (* which streams are gRPC is pinned here independently of the model's regenerated
+         constants: some HEADERS carried content-type exactly application/grpc *)
+      let spec_grpc = List.exists (function
+          | OpHeader (_, hs, false) ->
+              List.exists (fun (n, v) -> string_of_chars n = "content-type" && string_of_chars v = "application/grpc") hs
+          | _ -> false) ops in
+      if spec_grpc <> enabled p then
+        Some ("grpc_detection", Printf.sprintf "stream is %sgRPC by its content-type but the adapter treats it as %sgRPC"
+                (if spec_grpc then "" else "not ") (if enabled p then "" else "non-"))
+      else
       if not (enabled p) then begin
         (* not gRPC: DATA must reach the sink untouched, the processor sees nothing *)
         let want = List.map (fun (b, es) -> (b, es)) frames in
@@ -149,6 +159,22 @@ let judge _name ins outs =
         else (if List.length frames >= 1 then nontrivial := true; None)
       end else begin
         let e = get_enc d p in
+        (* the codec the gRPC spec prescribes for the grpc-encoding value this direction
+           announced, read here independently of the model's (regenerated) table *)
+        let announced =
+          List.fold_left (fun acc o -> match o with
+              | OpHeader (d', hs, false) when d' = d ->
+                  List.fold_left (fun acc (n, v) ->
+                      if string_of_chars n = "grpc-encoding" then Some (string_of_chars v) else acc) acc hs
+              | _ -> acc) None ops in
+        let spec_enc = match announced with
+          | None | Some "identity" -> Some Identity
+          | Some "gzip" -> Some Gzip | Some "deflate" -> Some Deflate | Some "snappy" -> Some Snappy
+          | Some _ -> None in
+        if spec_enc <> None && spec_enc <> Some e then
+          Some ("encoding_selection", Printf.sprintf "dir=%c grpc-encoding=%s but the adapter decodes with codec %c" dc
+                  (match announced with Some a -> a | None -> "<none>") (char_of_enc e))
+        else
         if not (has_spec && is_partition ms frames && es_only_last frames
                 && decodable decomp e ms) then None
         else begin
